@@ -67,6 +67,11 @@ chk("C08", "model_checking", "exhaustive command-value sweep over short historie
     "Trusted: refmac.rs / refregion.rs. Where RP002 leaves room either answer is accepted. nb runs the full domain, async a stride of it (shared MAC code).",
     "DESIGN.md §3 C08")
 
+chk("C20", "model_checking", "explicit-state BFS with a snapshot/restore at every state (crash point = every state), twin lock-step, exhaustive structural mutation of documents",
+    "BFS over session histories on the real device from sessions whose counters start at 16/32-bit boundaries; at every reached state the session is serialised (serde_json), deserialised, re-serialised (identical document required), compared field by field through the snapshot hook, and a fresh device given the restored session runs in lock-step with a replay of the original for four probe transactions including replays of previously accepted downlinks (uplink bytes, responses, delivered downlinks, session snapshots must agree). Malformed input: every single structural mutation of representative documents (pairs in thorough) must be refused or yield a session on which send / receive / snapshot stay panic-free.",
+    "Trusted: serde_json, the snapshot hook. Data rate / ADR flag are carried through public setters (not part of Session); the channel plan is not persisted, so radio configurations are not compared.",
+    "DESIGN.md §3 C20")
+
 ALL = ["C%02d" % i for i in range(1, 21)]
 NA_REASON = "check not built yet in this round; see DESIGN.md for the planned bounded exploration"
 
